@@ -33,4 +33,6 @@ CASES = [
          old="        acc = func(acc, source)", new="        acc = _.amb(acc)(source)")]),
     dict(expect="fire", desc="mutant: amb's right error handler does not enter the race", names="G1-gating", edits=[dict(file=AMB,
          old="        def on_error_right(err: Exception) -> None:\n            with left_source.lock:\n                choice_right()", new="        def on_error_right(err: Exception) -> None:\n            with left_source.lock:\n                pass")]),
+    dict(expect="fire", desc="seed C13-r4/2: amb's right error handler is gated by the LEFT side's constant", names="G1-gating", edits=[dict(file=AMB,
+         old="                choice_right()\n            if choice[0] == right_choice:\n                observer.on_error(err)", new="                choice_right()\n            if choice[0] == left_choice:\n                observer.on_error(err)")]),
 ]
